@@ -17,7 +17,7 @@ macro_rules! hist_prop {
             fn applicable(&self, ty: &Ty) -> bool { let f: fn(&Ty) -> bool = $app; f(ty) }
             fn config(&self, tier: Tier) -> PropConfig {
                 match tier {
-                    Tier::Quick => PropConfig { cases: $q, max_tape: $tape, shards: 8 },
+                    Tier::Quick => PropConfig { cases: $q, max_tape: $tape, shards: 12 },
                     Tier::Thorough => PropConfig { cases: $t, max_tape: 2 * $tape, shards: 16 },
                 }
             }
@@ -52,42 +52,42 @@ macro_rules! hist_prop {
 const ORACLE: &str = "after construction and after every step the real bytes are decoded by the independent reference decoder and compared with an abstract value updated by a sequential model; whether a growing operation fits is decided by the reference from the decoded capacities / FlexVec chain";
 
 hist_prop!(C05, "C05", owned = [Size], focus = Mixed, steps = 12,
-    quick = 40_000, thorough = 1_200_000, tape = 260,
+    quick = 300_000, thorough = 4_800_000, tape = 260,
     applicable = |_| true,
     nontrivial = |o| (o.grew && o.shrank) || o.odd_extent,
     rule = format!("case = (shape, value constructed with new_in_place, buffer = reference size + 0..600 spare bytes, history of 1..12 in-place mutations on any nested node: push/pop/truncate/clear/remove/resize/push_slice/extend, string pushes, FlexVec push/push_default/pop/truncate/clear, field writes, assign_in_place); {}; owned clauses: size() == reference extent rounded up to ALIGN, size() <= buffer, validate(as_bytes()) Ok, the first size() bytes copied to an exact-length guarded buffer re-map to the same content with the same size(); non-trivial = history contains a growing and a shrinking operation, or an extent that is not a multiple of ALIGN; distinct by (shape, initial value, buffer, history)", ORACLE),
     assumptions = ["values are API-reachable by construction (emplace + mutators), as the property's quantifier says"]);
 
 hist_prop!(C11, "C11", owned = [VecModel, Remap, Size], focus = VecString, steps = 40,
-    quick = 30_000, thorough = 900_000, tape = 500,
+    quick = 200_000, thorough = 3_200_000, tape = 500,
     applicable = |t| matches!(t, Ty::FlatVec(..) | Ty::FlatString(_)),
     nontrivial = |o| o.full_and_empty || o.hit_len_max,
     rule = format!("case = (FlatVec<T,L> / FlatString<L> instantiation from the element x length-type matrix, initial contents, buffer size up to ~64 elements beyond the contents (up to 600 bytes, so capacities above u8::MAX occur), history of 1..40 operations: push, pop, push_slice (lengths around the remaining room), extend_until_full, truncate, clear, remove, swap_remove, resize, [i] = v, push(char), push_str, in-place ASCII upper-casing, assign_in_place; arguments violating a documented stavec panic precondition are generated but not executed (label precondition_skipped)); {}; owned clauses: return value of every operation, len/capacity/remaining/is_empty consistency (capacity constant = reference capacity), contents, size(), ==/!= against a second container, validate(as_bytes()) and re-mapping after every step; non-trivial = history visits both the full and the empty state, or the length reaches the length type's maximum; distinct by (instantiation, initial value, buffer, history)", ORACLE),
     assumptions = ["stavec's documented panics (remove / swap_remove out of range, resize beyond capacity) are preconditions, not behaviour"]);
 
 hist_prop!(C12, "C12", owned = [FlexModel, Remap], focus = Flex, steps = 30,
-    quick = 30_000, thorough = 900_000, tape = 500,
+    quick = 200_000, thorough = 3_200_000, tape = 500,
     applicable = |t| t.any(|x| matches!(x, Ty::FlexVec(..))),
     nontrivial = |o| o.push_pop_push || o.edited_nonlast,
     rule = format!("case = (shape containing a FlexVec: item in {{sized, FlatVec, FlatString, unsized struct, unsized enum, nested FlexVec}} x offset type in {{u8..u64, portable}}, buffer up to 600 spare bytes, history of 1..30 of push(v), push_default, pop, truncate(n) for any n incl. >= len, clear, and edits of individual items through iter_mut().nth(i)); {}; owned clauses: len()/is_empty()/iter() equal the abstract sequence, pop removes exactly the last item, truncate(n) keeps exactly min(n, len), an edit changes only the edited item, pushes succeed exactly when the reference says they fit, bytes validate and re-map after every step; non-trivial = push -> (pop | truncate | clear) -> push on the same vector, or an edit of a non-last item; distinct by (shape, initial value, buffer, history)", ORACLE),
     assumptions = ["a push fits iff the sealing offset of the current last item is < L::MAX, a slot header fits and the reference encoder can place the item in the remaining region"]);
 
 hist_prop!(C13, "C13", owned = [RefusedUnchanged, Remap], focus = Edge, steps = 14,
-    quick = 30_000, thorough = 900_000, tape = 400,
+    quick = 200_000, thorough = 3_200_000, tape = 400,
     applicable = |t| t.any(|x| matches!(x, Ty::FlatVec(..) | Ty::FlatString(_) | Ty::FlexVec(..))),
     nontrivial = |o| o.refused_nonempty,
     rule = format!("case = (shape with a container, state driven towards the edge: spare room drawn from a small window, push_slice / push_str lengths of exactly remaining, remaining+1, remaining-1, multi-byte chars straddling the end, FlexVec pushes of items sized around the remaining region, items >= 255 bytes with u8 offsets, nested emplacers that do not fit); {}; owned clauses: when the operation is refused the decoded value and extent are identical to before, validate/re-map still succeed, and the following operations behave exactly as the model that never saw the failed call; non-trivial = an operation was refused on a non-empty container; distinct by (shape, initial value, buffer, history)", ORACLE),
     assumptions = ["a refused operation is one the reference says does not fit; Ok results are judged by the normal step check"]);
 
 hist_prop!(C14, "C14", owned = [WriteSet], focus = Mixed, steps = 14,
-    quick = 30_000, thorough = 900_000, tape = 400,
+    quick = 200_000, thorough = 3_200_000, tape = 400,
     applicable = |t| !matches!(t, Ty::Unit),
     nontrivial = |o| o.sibling_target && o.steps > 0,
     rule = format!("case = (shape, value, buffer inside a guarded arena with 96-byte canary margins on both sides, history of constructing and mutating operations including failing ones); {}; owned clause: the whole buffer is snapshotted before each operation and every byte outside the operation's allowed write set must be unchanged afterwards - allowed = the target node's own view for container / scalar / assign operations; for FlexVec push the header of the current tail slot plus everything from the new slot to the end of the vector's region; for FlexVec pop/truncate/clear only slot headers - and all canaries must be intact; non-trivial = the value has >= 2 sibling regions and the operation targets a nested one; distinct by (shape, initial value, buffer, history)", ORACLE),
     assumptions = ["writes past the end of the arena fault on the guard page and are reported through the crash journal"]);
 
 hist_prop!(C18, "C18", owned = [AssignValid, AssignOk, Remap], focus = Assign, steps = 8,
-    quick = 30_000, thorough = 900_000, tape = 400,
+    quick = 200_000, thorough = 3_200_000, tape = 400,
     applicable = |t| !t.is_sized(),
     nontrivial = |o| o.assign_failed,
     rule = format!("case = (unsized shape, current value, replacement value for the root or any nested unsized node - every variant, container fills from empty to far too long -, buffer with 0..600 spare bytes so the replacement fits / misses by little / misses by a lot); {}; owned clauses: if assign_in_place returns Err the bytes still decode (validate Ok), deep read / size() do not panic, later assignments work, and - the failing part being the root of the assigned value, i.e. plain lack of room - the value is unchanged; if it returns Ok the new content reads back; non-trivial = an assignment failed; distinct by (shape, initial value, buffer, history). Failures located below already-written parts of the assigned value are a recorded known finding and excluded by construction (counted in excluded_known_findings)", ORACLE),
